@@ -21,10 +21,12 @@ TRUSTED_BASE = [
     "(a) regenerated Consts.v/CallGraph.v (harness/gen_consts.py, gen_callgraph.py: Python ast + import) and "
     "(b) the correspondence run of this check (extracted model vs the real implementation on the same scripts)",
     "translators from the Python AST to Gallina, run on every check (harness/gen_helpers.py, gen_helpers2.py, gen_storage.py, gen_node.py, "
-    "gen_links.py, gen_trie.py, gen_triew.py, gen_tried.py, gen_traph.py, gen_traphw.py, gen_traphl.py, gen_traphp.py): the Python subset each "
+    "gen_links.py, gen_trie.py, gen_triew.py, gen_tried.py, gen_triei.py, gen_traph*.py, gen_helpers3.py): the Python subset each "
     "accepts and the Gallina it emits for it (raises as None, loops on fuel, generator requests with their sequential meaning, dicts and sets "
     "as insertion-ordered association lists, regex search as the modelled matcher Rules.apply_rule, textual checks of __encode / "
-    "TraphIteratorState / run_iterator / TraphWriteReport); the Gen*Facts.v files prove the translated functions equal to the model",
+    "TraphIteratorState / run_iterator / TraphWriteReport, heapq / int() / re.compile as modelled primitives, a generator whose consumer writes read "
+    "as a visitor called at every yield, the head of Traph.__init__ / on-disk clear / close pinned by digest); the Gen*Facts.v files prove the "
+    "translated functions equal to the model",
     "extraction: ExtrOcamlBasic directives only (bool, option, list, prod, unit, sumbool); N/positive extracted as inductives; "
     "no Extract Constant / Extract Inductive of our own; OCaml 4.13 + ocaml/driver.ml line parser",
     "Python semantics assumed as modelled (bytes order, struct, re, dict/Counter order, file I/O) and checked only differentially",
